@@ -35,7 +35,7 @@ def unsafe_name(n):
 
 
 def run_case(chk, cli, pool, case, dist, kf):
-    """case: {"inputs": layout args (materialised under in/), "extra": [(relpath, bytes)] other files, "links": [(rel, target)],
+    """case: {"inputs": layout args (materialised under in/), "files": [(relpath, bytes, mode)] other files, "links": [(rel, target)],
               "argv": arguments after the input paths, "out": allowed output location relative to the sandbox or None,
               "pre_out": 'dir'|'file'|None, "hostile": [(member name, stem_num.ext file name)] members expected to be extracted}"""
     base = vlib.scratch("c19", clean=False)
@@ -52,6 +52,12 @@ def run_case(chk, cli, pool, case, dist, kf):
         argv_in = L.materialise(os.path.join(sb, "in"), inputs, [b.replace(b"@SB@", sb.encode()) for b in pool.blobs])
         for rel, target in case.get("links", []):
             os.symlink(target, os.path.join(sb, rel))
+        for rel, content, mode in case.get("files", []):       # other files of the sandbox (tools, binaries), relative to the sandbox
+            fp = os.path.join(sb, rel)
+            os.makedirs(os.path.dirname(fp), exist_ok=True)
+            with open(fp, "wb") as f:
+                f.write(content)
+            os.chmod(fp, mode)
         if case.get("pre_out") == "dir":
             os.makedirs(os.path.join(sb, case["out"]), exist_ok=True)
         before = snapshot(sb)
@@ -171,8 +177,53 @@ def cases(pool, rng, tier):
             {"kind": "plain", "name": "cov.info", "blob": via}]
     for argv, o, pre in OUTPUTS:
         for more in ([], ["--branch", "--threads", "2"]):
-            if "html" in argv[1] or not more:
+            if ("html" in argv[1] or not more) and not ("--branch" in argv and more):
                 out.append({"inputs": srcs, "links": [("link", "real"), ("work/lnk2", "../link/src")], "argv": argv + more, "out": o, "pre_out": pre, "tag": "abs-via-symlink"})
+    # recorded paths with BACKSLASHES: one component for std::path, but "always return '/'" turns them into '..' components late;
+    # the file of that literal name exists under the source directory / the working directory, so the HTML writer would open it.
+    # out/html + ../../canary = <sandbox>/canary; out/multi/html + ../../canary = <sandbox>/out/canary (outside the output location, inside the sandbox)
+    bs1, bs2 = "..\\..\\canary\\pwn.c", "src\\..\\..\\..\\canary\\q.c"
+    bsl = pool.add("info_backslash", L.lcov(b"src/ok.c", [(1, 1)]) + L.lcov(bs1.encode(), [(1, 2)]) + L.lcov(bs2.encode(), [(1, 3)])
+                   + L.lcov(b"src\\ok2.c", [(1, 4)]) + L.lcov(b"@SB@\\canary\\victim.c", [(1, 5)]))
+    lit = [["src/ok.c", foo, "c"], ["src/ok2.c", foo, "c"], [bs1, foo, "c"], [bs2, foo, "c"], ["src\\ok2.c", foo, "c"]]
+    proj = [{"kind": "hidden", "arg": {"kind": "dir", "name": "../proj", "entries": lit}},
+            {"kind": "hidden", "arg": {"kind": "dir", "name": "../work", "entries": lit}},
+            {"kind": "plain", "name": "bs.info", "blob": bsl}]
+    for argv, o, pre in OUTPUTS:
+        if "html" in argv[1]:
+            for more in (["-s", "../proj"], [], ["-s", "../proj", "--branch", "--threads", "2"], ["-s", "../proj", "-p", "..", "--ignore-not-existing"]):
+                if "--branch" in argv and "--branch" in more:
+                    continue
+                out.append({"inputs": proj, "argv": argv + more, "out": o, "pre_out": pre, "tag": "backslash-paths"})
+        else:
+            out.append({"inputs": proj, "argv": argv + ["-s", "../proj"], "out": o, "pre_out": pre, "tag": "backslash-paths"})
+    # source-based coverage: .profraw/.profdata as plain arguments, in a directory and in a zip; stand-in llvm-profdata / llvm-cov
+    # (honour `-o <file>`, print canned lcov); the tools, the binary and the profiles are inputs and must stay untouched
+    profdata_sh = b"""#!/bin/sh
+out=""
+while [ $# -gt 0 ]; do case "$1" in -o) out="$2"; shift;; esac; shift; done
+cat > /dev/null
+if [ -n "$out" ]; then echo merged > "$out"; fi
+exit 0
+"""
+    cov_sh = b"#!/bin/sh\nprintf 'SF:src/ok.c\\nFN:1,f\\nFNDA:1,f\\nDA:1,1\\nDA:2,0\\nend_of_record\\n'\n"
+    tools = [("tools/llvm-profdata", profdata_sh, 0o755), ("tools/llvm-cov", cov_sh, 0o755), ("bin/app", b"\x7fELF stand-in binary", 0o755),
+             ("work/src/ok.c", b"int f(void) { return 0; }\n", 0o644)]
+    pr, pd = n["profraw_1"], n["profraw_2"]
+    prof_inputs = {
+        "plain": [{"kind": "plain", "name": "pl/default.profraw", "blob": pr}, {"kind": "plain", "name": "pl/other.profraw", "blob": pd}],
+        "plain-profdata": [{"kind": "plain", "name": "pd/app.profdata", "blob": pd}],
+        "plain-both": [{"kind": "plain", "name": "pb/a.profraw", "blob": pr}, {"kind": "plain", "name": "pb/b.profdata", "blob": pd}],
+        "dir": [{"kind": "dir", "name": "pdir", "entries": [["run1/default.profraw", pr, "profraw"], ["run2/default.profraw", pd, "profraw"], ["m.profdata", pd, "profdata"]]}],
+        "zip": [{"kind": "zip", "name": "prof.zip", "entries": [["default.profraw", pr, "profraw"], ["sub/x.profdata", pd, "profdata"]]}],
+        "mixed": [{"kind": "zip", "name": "prof.zip", "entries": [["default.profraw", pr, "profraw"]]}, {"kind": "dir", "name": "pdir", "entries": [["default.profraw", pd, "profraw"]]},
+                  {"kind": "plain", "name": "pl/default.profraw", "blob": pr}, {"kind": "plain", "name": "extra.info", "blob": n["info_a"]}],
+    }
+    for tag, inp in prof_inputs.items():
+        outs = OUTPUTS[:2] + [OUTPUTS[10], OUTPUTS[11]] if tier == "quick" else OUTPUTS
+        for argv, o, pre in outs:
+            out.append({"inputs": inp, "files": tools, "argv": ["--binary-path", "../bin/app", "--llvm-path", "../tools"] + argv, "out": o, "pre_out": pre, "tag": "profiles-" + tag})
+        out.append({"inputs": inp, "files": tools, "argv": ["-b", "../bin", "--llvm-path", "../tools", "--threads", "3", "-t", "covdir", "-o", "../out/o.json"], "out": "out/o.json", "tag": "profiles-" + tag})
     # hostile archives
     long = "d" * 100 + "/" + "e" * 100 + "/" + "f" * 90
     hostile_sets = [
@@ -225,13 +276,15 @@ def run(chk):
     chk.cov["rule"] = ("CLI runs inside a fresh sandbox tree (inputs, a canary sibling directory, the output location, TMPDIR, the working directory), full snapshot "
                        "(paths, sizes, SHA-256, link targets) before and after: 12 output configurations (lcov, html, html into an existing dir, covdir, files, cobertura, "
                        "cobertura-pretty, markdown, ade, coveralls, four types into one directory, stdout) x {benign dir+zip+plain inputs with --llvm, tracefiles whose SF paths are "
-                       "relative with '..', absolute, or normalise outside, with and without -s}; GCC path from directories and zips (gcov runs); symlinked input directory and links "
+                       "relative with '..', absolute, or normalise outside, with and without -s}; GCC path from directories and zips (gcov runs); source-based coverage with stand-in llvm-profdata/llvm-cov and profiles as plain arguments, in a directory, in a zip and mixed; recorded paths with backslashes whose literal file exists under -s and the working directory (html, multi-output); symlinked input directory and links "
                        "inside an input directory; hostile zips (member names with '..', absolute, '..' that stays inside, 295-byte names, duplicates, hostile .info/.xml names; with and "
                        "without --llvm).  Every changed path must lie in TMPDIR or at the output location, TMPDIR must be empty after exit 0; Model/Confine.v's verdict "
                        "on every hostile member name is evaluated (safe => inside); unsafe members must leave no trace outside (regression guard for the fixed zip-slip).  non-trivial = run with distinct (arguments, changes)")
     chk.cov["trusted_base"] = ["Coq kernel; vm_compute for run_confine", "the kernel's path resolution and what the external gcov binary writes are observed, not modelled",
                                "snapshot/diff code of the driver; Python zipfile for hostile archives"]
-    chk.assumptions = ["the temporary directory is reached through TMPDIR (tempfile crate)", "lexical confinement: symbolic links created by other processes inside the temporary directory during the run are out of scope"]
+    chk.assumptions = ["C19_html_confined asks for a normalised relative path: that every reported relative path is one is C11 (Props/C11.v C11_normal_form, C11_reported_normal, "
+                       "proved there over Model/Paths.v); here the sandbox oracle observes it end to end, incl. recorded paths with backslashes, '..' and symlinked absolute paths",
+                       "the temporary directory is reached through TMPDIR (tempfile crate)", "lexical confinement: symbolic links created by other processes inside the temporary directory during the run are out of scope"]
 
 
 def replay(chk, path):
